@@ -24,7 +24,7 @@ import types
 import z3
 
 from . import source
-from .sym import (SArr, SBool, SBytes, SF, SInt, SMap, SObj, SOpaque, SReal,
+from .sym import (arr_elem, SArr, SBool, SBytes, SF, SInt, SMap, SObj, SOpaque, SReal,
                   SStr, Sym, And, Not, Or, Z, floordiv, is_sym, kind_of,
                   pymod, real_val, sort_of, to_z3, wrap)
 
@@ -203,6 +203,7 @@ class Ctx:
 
     # fresh symbols -----------------------------------------------------------
     def _name(self, base):
+        base = "".join(c if (c.isalnum() or c in "_.!@$%^&*-+=<>?/~") else "_p" for c in str(base))
         k = self.counter.get(base, 0)
         self.counter[base] = k + 1
         return base if k == 0 else f"{base}!{k}"
@@ -803,11 +804,21 @@ class Interp:
         self.cut_loop(s, f, spec, seq)
 
     def loop_spec(self, s, f):
+        """loop specs are keyed by the loop header text ("x in xs" / while test) --
+        robust against unrelated edits -- or by ordinal in source order"""
+        if isinstance(s, ast.For):
+            text = f"{ast.unparse(s.target)} in {ast.unparse(s.iter)}"
+        else:
+            text = ast.unparse(s.test)
         idx = f.loop_index(s)
-        spec = f.unit.loops.get((f.info.qualname, idx))
-        if spec is None and f.depth == 0:
-            spec = f.unit.loops.get(idx)
-        return spec
+        for key in ((f.info.qualname, text), (f.info.qualname, idx)):
+            if key in f.unit.loops:
+                return f.unit.loops[key]
+        if f.depth == 0:
+            for key in (text, idx):
+                if key in f.unit.loops:
+                    return f.unit.loops[key]
+        return None
 
     def iter_plan(self, it):
         """('concrete', python list) or ('sym', n, getter)"""
@@ -828,8 +839,8 @@ class Interp:
         if isinstance(it, SArr):
             if z3.is_int_value(z3.simplify(it.n)):
                 nn = z3.simplify(it.n).as_long()
-                return ("concrete", [wrap(it.sel(i)) for i in range(nn)])
-            return ("sym", it.n, lambda i: wrap(it.sel(i)))
+                return ("concrete", [arr_elem(it, i) for i in range(nn)])
+            return ("sym", it.n, lambda i: arr_elem(it, i))
         if isinstance(it, SEnumerate):
             inner = self.iter_plan(it.inner)
             if inner[0] == "concrete":
@@ -878,6 +889,7 @@ class Interp:
             ctx.check(inv, f"loop{lidx} invariant on entry: {name}", line, kind="inv-entry")
         # --- havoc
         names = self.assigned_names(s.body) | (self.assigned_names([s.target]) if is_for else set())
+        names |= set(spec.kinds)
         ctx.stamp += 1
         for nm in sorted(names):
             if nm in spec.kinds:
@@ -1272,6 +1284,16 @@ class Interp:
         # dclab function or class -> contract / inline
         mod = getattr(fn, "__module__", None) or ""
         if isinstance(fn, (types.FunctionType, types.MethodType)) and mod.startswith("dclab"):
+            key = f"{mod}:{getattr(fn, '__qualname__', '')}"
+            if (key in f.unit.native or getattr(fn, "__qualname__", "") in f.unit.native) \
+                    and not any(_has_sym(a) for a in args) \
+                    and not any(_has_sym(v) for v in kwargs.values()):
+                # trusted native call of a dclab table look-up on concrete arguments
+                self.ctx.note(f"native call (trusted): {key}")
+                try:
+                    return fn(*args, **kwargs)
+                except Exception as ex:
+                    raise PyRaise(type(ex), ex.args, node)
             ref = self.funcref_for(fn, f)
             return self.call_funcref(ref, args, kwargs, f)
         if isinstance(fn, type) and mod.startswith("dclab"):
@@ -1279,7 +1301,43 @@ class Interp:
             c = f.unit.callees.get(key) or f.unit.callees.get(fn.__qualname__)
             if c is not None:
                 return c(self, *args, **kwargs)
+            if fn.__qualname__ in f.unit.classes and (fn.__qualname__ + ".__init__") in f.unit.inline:
+                # construct a record of the class and run the real __init__ on it
+                obj = self.ctx.obj(fn.__qualname__, {}, name=fn.__qualname__.lower())
+                obj.realcls = fn
+                fi = self.lookup_method(obj, "__init__", f)
+                if fi is None:
+                    raise Unsupported(f"{fn.__qualname__} has no __init__ in the declared sources")
+                ref = FuncRef(fi, fi.qualname, module=f.unit.class_modules.get(fn.__qualname__))
+                self.inline_call(ref, [obj] + list(args), kwargs, f)
+                return obj
             raise Unsupported(f"constructor call {key} has no contract")
+        # methods of concrete python containers that never compare elements
+        slf = getattr(fn, "__self__", None)
+        if isinstance(slf, (list, dict)) and not isinstance(fn, types.MethodType):
+            nm = getattr(fn, "__name__", "")
+            safe_list = {"append", "extend", "insert", "pop", "clear", "copy", "reverse"}
+            safe_dict = {"update", "setdefault", "pop", "get", "keys", "values", "items", "copy", "clear"}
+            if (isinstance(slf, list) and nm in safe_list) or (isinstance(slf, dict) and nm in safe_dict):
+                keyargs = args[:1] if isinstance(slf, dict) and nm in ("setdefault", "pop", "get") else []
+                if isinstance(slf, list) and nm in ("insert", "pop"):
+                    keyargs = args[:1]
+                if not any(is_sym(k) and not isinstance(k, SObj) for k in keyargs):
+                    if nm in ("append", "extend", "insert", "pop", "clear", "reverse", "update", "setdefault"):
+                        self.heap_write(slf)
+                    if nm == "extend" and args and is_sym(args[0]):
+                        p = self.iter_plan(args[0])
+                        if p[0] != "concrete":
+                            raise Unsupported("list.extend with a symbolic sequence")
+                        slf.extend(p[1])
+                        return None
+                    try:
+                        return fn(*args, **kwargs)
+                    except Exception as ex:
+                        raise PyRaise(type(ex), ex.args, node)
+        # "...{}...".format(x) with symbolic fields: structured string
+        if getattr(fn, "__name__", "") == "format" and isinstance(getattr(fn, "__self__", None), str):
+            return self.models.str_format(self, fn.__self__, args, kwargs)
         # concrete pure call
         if not any(_has_sym(a) for a in args) and not any(_has_sym(v) for v in kwargs.values()):
             if fn in PURE_BUILTINS or self.models.is_pure(fn):
@@ -1380,6 +1438,8 @@ class Interp:
         if isinstance(obj, SObj):
             if name in obj.fields:
                 return obj.fields[name]
+            if name == "__class__":
+                return types.SimpleNamespace(__name__=obj.clsname)
             # contract for attribute (property) access
             key = f"{obj.clsname}.{name}"
             fi = self.lookup_method(obj, name, f)
@@ -1496,6 +1556,7 @@ class Unit:
     class_modules = {}
     bytes_ghost = None
     extra_globals = None
+    native = ()
 
     def __init__(self, **kw):
         for k, v in kw.items():
